@@ -497,8 +497,15 @@ impl EncodingVersion for EncodingVersion2 {
         deserializer: &mut XTypesDeserializer<'a, E, Self>,
         dynamic_data: &mut DynamicData,
     ) -> XTypesResult<()> {
-        let _dheader = deserializer.deserialize_primitive_type::<u32>()?;
+        let dheader = deserializer.deserialize_primitive_type::<u32>()?;
+        if dheader as usize > deserializer.reader.remaining() {
+            return Err(XTypesError::NotEnoughData);
+        }
+        let end = deserializer.reader.pos + dheader as usize;
+        // Every member is searched from the start of the list and the position restored afterwards: what
+        // follows this object starts where the DHEADER says the object ends
         deserializer.deserialize_members(dynamic_data)?;
+        deserializer.reader.pos = end;
         Ok(())
     }
 
